@@ -1,8 +1,12 @@
 import Ymq.Props.C04
 import Ymq.Props.C04Relations
+import Ymq.Props.C04Shape
 #print axioms Ymq.C04.sched_inv
 #print axioms Ymq.C04.sched_done_monotone
 #print axioms Ymq.C04.sched_bounded_work
 #print axioms Ymq.C04.sched_progress
 #print axioms Ymq.C04.sched_relations_valid
 #print axioms Ymq.C04.sched_no_panic
+#print axioms Ymq.C04Shape.sched_inv_shape
+#print axioms Ymq.C04Shape.shape_adds_exactly
+#print axioms Ymq.C04Shape.source_shapes_ok
